@@ -856,12 +856,21 @@ func zzC10ReplyOK(a zzC10Act, o zzC10Out, r zzC10Reply, post *zzC10Obs) (ok bool
 
 // ------------------------------------------------------------------ walker
 
+// zzC10WNode is a node of the walker's own graph: an abstract state the real
+// server has been seen in (refined by the order of its lease slice when
+// opts.Order is set), the action instances not yet tried there and the
+// successors observed so far.
 type zzC10WNode struct {
+	id     int
 	key    string
 	state  string
 	remain []int
-	succ   map[int]string
-	inited bool
+	// succ maps an action index to the node it led to last time (-1 = not
+	// tried or not to be walked through).
+	succ []int32
+	// nbrs lists (action, node) pairs for planning; entries may be stale, the
+	// walker checks where a planned step really leads.
+	nbrs [][2]int32
 }
 
 type zzC10Bad struct {
@@ -889,7 +898,11 @@ type zzC10Walk struct {
 	w    *zzWriter
 
 	mu        sync.Mutex
-	nodes     map[string]*zzC10WNode
+	nodes     []*zzC10WNode
+	index     map[string]int
+	stamp     []int32
+	epoch     int32
+	looseLeft int
 	sigs      map[string]int
 	steps     atomic.Int64
 	stop      atomic.Bool
@@ -915,12 +928,16 @@ func (wk *zzC10Walk) nodeKey(o *zzC10Obs) (k string) {
 // node returns the walker node of o; mu must be held.
 func (wk *zzC10Walk) node(o *zzC10Obs, rng *rand.Rand) (n *zzC10WNode) {
 	k := wk.nodeKey(o)
-	n = wk.nodes[k]
-	if n != nil {
-		return n
+	if id, ok := wk.index[k]; ok {
+		return wk.nodes[id]
 	}
-	n = &zzC10WNode{key: k, state: o.key, succ: map[int]string{}}
-	wk.nodes[k] = n
+	n = &zzC10WNode{id: len(wk.nodes), key: k, state: o.key, succ: make([]int32, len(wk.g.acts))}
+	for i := range n.succ {
+		n.succ[i] = -1
+	}
+	wk.nodes = append(wk.nodes, n)
+	wk.stamp = append(wk.stamp, 0)
+	wk.index[k] = n.id
 	if sn := wk.g.nodes[o.key]; sn != nil {
 		for i, a := range wk.g.acts {
 			if _, ok := sn.enabled(a); ok {
@@ -933,83 +950,92 @@ func (wk *zzC10Walk) node(o *zzC10Obs, rng *rand.Rand) (n *zzC10WNode) {
 	return n
 }
 
-// plan returns the first action of a shortest known path from n to a node
-// with untried actions; mu must be held.
-func (wk *zzC10Walk) plan(from *zzC10WNode) (path []int) {
-	type item struct {
-		n    *zzC10WNode
-		prev int
-		act  int
+// link records that action ai led from n to d; mu must be held.
+func (wk *zzC10Walk) link(n *zzC10WNode, ai int, d *zzC10WNode) {
+	if n.succ[ai] == int32(d.id) {
+		return
 	}
-	q := []item{{n: from, prev: -1}}
-	seen := map[string]bool{from.key: true}
-	for i := 0; i < len(q); i++ {
-		cur := q[i]
-		if len(cur.n.remain) > 0 && i > 0 {
-			for j := i; q[j].prev >= 0; j = q[j].prev {
-				path = append([]int{q[j].act}, path...)
-			}
-
-			return path
-		}
-		acts := make([]int, 0, len(cur.n.succ))
-		for a := range cur.n.succ {
-			acts = append(acts, a)
-		}
-		sort.Ints(acts)
-		for _, a := range acts {
-			d := cur.n.succ[a]
-			if seen[d] || wk.nodes[d] == nil {
-				continue
-			}
-			seen[d] = true
-			q = append(q, item{n: wk.nodes[d], prev: i, act: a})
-		}
-	}
-
-	return nil
+	n.succ[ai] = int32(d.id)
+	n.nbrs = append(n.nbrs, [2]int32{int32(ai), int32(d.id)})
 }
 
-// pathFromInit returns a shortest known action path from the empty table to
-// the walker node key; mu must be held.
-func (wk *zzC10Walk) pathFromInit(target string) (path []int, ok bool) {
+type zzC10Hop struct {
+	act int
+	dst int
+}
+
+// search is a breadth-first search over the observed successors from node
+// from; it stops at the first node for which goal holds and returns the
+// path to it.  mu must be held.
+func (wk *zzC10Walk) search(from int, loose bool, goal func(n *zzC10WNode) bool) (path []zzC10Hop, ok bool) {
 	type item struct {
-		k    string
-		prev int
-		act  int
+		n    int32
+		prev int32
+		act  int32
 	}
-	start := ""
-	if wk.opts.Order {
-		start = "#"
-	}
-	q := []item{{k: start, prev: -1}}
-	seen := map[string]bool{start: true}
+	wk.epoch++
+	q := []item{{n: int32(from), prev: -1}}
+	wk.stamp[from] = wk.epoch
 	for i := 0; i < len(q); i++ {
-		if q[i].k == target {
-			for j := i; q[j].prev >= 0; j = q[j].prev {
-				path = append([]int{q[j].act}, path...)
+		cur := wk.nodes[q[i].n]
+		if goal(cur) {
+			for j := int32(i); q[j].prev >= 0; j = q[j].prev {
+				path = append(path, zzC10Hop{act: int(q[j].act), dst: int(q[j].n)})
+			}
+			for l, r := 0, len(path)-1; l < r; l, r = l+1, r-1 {
+				path[l], path[r] = path[r], path[l]
 			}
 
 			return path, true
 		}
-		n := wk.nodes[q[i].k]
-		if n == nil {
-			continue
-		}
-		acts := make([]int, 0, len(n.succ))
-		for a := range n.succ {
-			acts = append(acts, a)
-		}
-		sort.Ints(acts)
-		for _, a := range acts {
-			if d := n.succ[a]; !seen[d] {
-				seen[d] = true
-				q = append(q, item{k: d, prev: i, act: a})
+		for _, e := range cur.nbrs {
+			if (!loose && cur.succ[e[0]] != e[1]) || wk.stamp[e[1]] == wk.epoch {
+				continue
 			}
+			wk.stamp[e[1]] = wk.epoch
+			q = append(q, item{n: e[1], prev: int32(i), act: e[0]})
 		}
 	}
 
 	return nil, false
+}
+
+// plan returns a shortest known path from n to another node with untried
+// actions; mu must be held.  The server has state the abstraction does not
+// show (the order of its slice, above all), so an action may lead elsewhere
+// than it did before: when no path of up-to-date edges exists, edges that led
+// to the goal at some time are tried as well (a bounded number of times).
+func (wk *zzC10Walk) plan(from *zzC10WNode) (path []zzC10Hop) {
+	goal := func(n *zzC10WNode) bool { return n.id != from.id && len(n.remain) > 0 }
+	path, ok := wk.search(from.id, false, goal)
+	if !ok && wk.looseLeft > 0 {
+		path, ok = wk.search(from.id, true, goal)
+		if ok {
+			wk.looseLeft--
+		}
+	}
+
+	return path
+}
+
+// pathFromInit returns a shortest known action path from the empty table to
+// the walker node key; mu must be held.
+func (wk *zzC10Walk) pathFromInit(target string) (acts []int, ok bool) {
+	start := ""
+	if wk.opts.Order {
+		start = "#"
+	}
+	from, ok1 := wk.index[start]
+	to, ok2 := wk.index[target]
+	if !ok1 || !ok2 {
+		return nil, false
+	}
+	path, ok := wk.search(from, false, func(n *zzC10WNode) bool { return n.id == to })
+	for _, h := range path {
+		acts = append(acts, h.act)
+	}
+
+	return acts, ok
 }
 
 func zzC10Soft(prob []string) (ok bool) {
@@ -1153,7 +1179,9 @@ func (wk *zzC10Walk) worker(t testing.TB, id int) {
 	cur := y.abs()
 	hist := []zzC10Act{}
 	isIdle := false
+	var path []zzC10Hop
 	reset := func() {
+		path = nil
 		if err = y.reset(); err != nil {
 			t.Errorf("worker %d: reset: %v", id, err)
 			wk.stop.Store(true)
@@ -1179,8 +1207,14 @@ func (wk *zzC10Walk) worker(t testing.TB, id int) {
 		if len(n.remain) > 0 {
 			ai = n.remain[len(n.remain)-1]
 			n.remain = n.remain[:len(n.remain)-1]
-		} else if p := wk.plan(n); p != nil {
-			ai = p[0]
+			path = nil
+		} else {
+			if len(path) == 0 {
+				path = wk.plan(n)
+			}
+			if len(path) > 0 {
+				ai = path[0].act
+			}
 		}
 		if ai < 0 {
 			atInit := len(cur.Ls) == 0 && len(hist) == 0
@@ -1228,10 +1262,19 @@ func (wk *zzC10Walk) worker(t testing.TB, id int) {
 		srcKey := wk.nodeKey(src)
 		goOn := why == "" || (wk.g.nodes[post.key] != nil && zzC10Soft(post.Prob))
 		if goOn {
-			n.succ[ai] = wk.nodeKey(post)
-			_ = wk.node(post, rng)
+			d := wk.node(post, rng)
+			wk.link(n, ai, d)
+			if len(path) > 0 {
+				// Follow the plan only as long as it leads where it did.
+				if path[0].act == ai && path[0].dst == d.id {
+					path = path[1:]
+				} else {
+					path = nil
+				}
+			}
 		} else {
-			delete(n.succ, ai)
+			n.succ[ai] = -1
+			path = nil
 		}
 		if post.key != src.key {
 			wk.nontriv[src.key+"|"+a.key()] = true
@@ -1283,8 +1326,8 @@ func TestZZVerifC10Walk(t *testing.T) {
 	if opts.DeadlineS <= 0 {
 		opts.DeadlineS = 600
 	}
-	wk := &zzC10Walk{g: g, opts: opts, base: zzC10Base(t), w: w, nodes: map[string]*zzC10WNode{},
-		sigs: map[string]int{}, nontriv: map[string]bool{}, deadline: time.Now().Add(time.Duration(opts.DeadlineS) * time.Second)}
+	wk := &zzC10Walk{g: g, opts: opts, base: zzC10Base(t), w: w, index: map[string]int{},
+		looseLeft: 20000, sigs: map[string]int{}, nontriv: map[string]bool{}, deadline: time.Now().Add(time.Duration(opts.DeadlineS) * time.Second)}
 	var wg sync.WaitGroup
 	for i := 0; i < opts.Workers; i++ {
 		wg.Add(1)
@@ -1346,15 +1389,17 @@ func TestZZVerifC10Replay(t *testing.T) {
 // ---------------------------------------------------------- direction B
 
 type zzC10TraceLine struct {
-	Reset bool       `json:"reset"`
-	Act   zzC10Act   `json:"act"`
-	Src   []zzC10L   `json:"src"`
-	Dst   []zzC10L   `json:"dst"`
-	Disk  []zzC10L   `json:"disk"`
-	Out   zzC10Reply `json:"out"`
-	Prob  []string   `json:"prob"`
-	Run   int        `json:"run"`
-	Step  int        `json:"step"`
+	Reset   bool       `json:"reset"`
+	Act     zzC10Act   `json:"act"`
+	Src     []zzC10L   `json:"src"`
+	Dst     []zzC10L   `json:"dst"`
+	Disk    []zzC10L   `json:"disk"`
+	Out     zzC10Reply `json:"out"`
+	Prob    []string   `json:"prob"`
+	SrcProb []string   `json:"srcprob"`
+	SrcDisk []zzC10L   `json:"srcdisk"`
+	Run     int        `json:"run"`
+	Step    int        `json:"step"`
 }
 
 // zzC10Pick draws the next action of a random history, biased towards
@@ -1469,7 +1514,7 @@ func TestZZVerifC10Trace(t *testing.T) {
 			}
 			post := y.abs()
 			w.put(&zzC10TraceLine{Reset: fresh, Act: a, Src: cur.Ls, Dst: post.Ls, Disk: post.Disk, Out: r,
-				Prob: post.Prob, Run: run, Step: step})
+				Prob: post.Prob, SrcProb: cur.Prob, SrcDisk: cur.Disk, Run: run, Step: step})
 			fresh = false
 			cur = post
 			if len(post.Prob) > 0 && !zzC10Soft(post.Prob) {
